@@ -374,16 +374,21 @@ fn run_te<P: TECurveConfig>(op: &str, a: &[Arg]) -> Vec<Arg> {
 // ---- toy / medium prime fields: every residue of MODULUS_BIT_SIZE mod 8, and bits = 64 N ----
 macro_rules! toy {
     ($cfg:ident, $ty:ident, $fp:ident, $n:tt, $m:tt) => {
+        toy!($cfg, $ty, $fp, $n, $m, "2");
+    };
+    ($cfg:ident, $ty:ident, $fp:ident, $n:tt, $m:tt, $g:tt) => {
         #[derive(MontConfig)]
         #[modulus = $m]
-        #[generator = "2"]
+        #[generator = $g]
         pub struct $cfg;
         pub type $ty = $fp<MontBackend<$cfg, $n>>;
     };
 }
 toy!(C8, F8, Fp64, 1, "251");
 toy!(C15, F15, Fp64, 1, "32749");
-toy!(C16, F16, Fp64, 1, "65521");
+// 65521 = 1 mod 8, so 2 is a square: Field::sqrt (Tonelli-Shanks, used by the T16 curve below) needs a
+// genuine generator for TWO_ADIC_ROOT_OF_UNITY; 17 is a primitive root
+toy!(C16, F16, Fp64, 1, "65521", "17");
 toy!(C17, F17, Fp64, 1, "131071");
 toy!(C61, F61, Fp64, 1, "2305843009213693951");
 toy!(C63, F63, Fp64, 1, "9223372036854775783");
